@@ -63,31 +63,29 @@ def merge(I, twin=False):
     return True, ""
 
 
-class _RecState:
-    """recording stand-in for a neural state: sample() returns tagged chain states"""
+def _rec_state(n=3):
+    """a real PositiveWaveFunction whose RBM's gibbs_steps is a recorder: the real NeuralStateBase.sample() runs
+    (incl. its choice of the start state), the Markov chain itself is replaced by tagged chain states"""
+    import torch
+    from qucumber.nn_states import PositiveWaveFunction
 
-    def __init__(self, n=3):
-        import torch
+    st = PositiveWaveFunction(n, 2, gpu=False)
+    st.calls = []
+    st.states = []
+    counter = [0]
 
-        self.torch = torch
-        self.device = torch.device("cpu")
-        self.n = n
-        self.calls = []
-        self.states = []
-        self.counter = 0
-
-    def sample(self, k, num_samples=1, initial_state=None, overwrite=False):
-        torch = self.torch
-        self.calls.append(dict(k=k, num_samples=num_samples, initial=initial_state, overwrite=overwrite))
-        self.counter += 1
-        if initial_state is None:
-            out = torch.zeros(int(num_samples), self.n, dtype=torch.double)
-        else:
-            out = initial_state if overwrite else initial_state.clone()
-        g = torch.Generator().manual_seed(1000 + self.counter)
-        out.copy_(torch.bernoulli(torch.full(out.shape, 0.5, dtype=torch.double), generator=g))
-        self.states.append(out.clone())
+    def gibbs_steps(k, initial_state, overwrite=False):
+        st.calls.append(dict(k=k, initial=initial_state, overwrite=overwrite, shape=tuple(initial_state.shape)))
+        counter[0] += 1
+        out = initial_state if overwrite else initial_state.clone()
+        g = torch.Generator().manual_seed(1000 + counter[0])
+        out.copy_(torch.bernoulli(torch.full(out.shape, 0.5, dtype=torch.double), generator=g).to(out))
+        st.states.append(out.clone())
         return out
+
+    st.rbm_am.gibbs_steps = gibbs_steps
+    st.n = n
+    return st
 
 
 def _observables():
@@ -132,7 +130,7 @@ def schedule(I, system=False, user_chains=0, overwrite=False, composite=False):
     from qucumber.observables import System
 
     num_samples, num_chains, burn_in, steps = I["num_samples"], I["num_chains"], I["burn_in"], I["steps"]
-    st = _RecState()
+    st = _rec_state()
     o1, o2 = _observables()
     if composite:
         o1 = 3 - 2 * o1
@@ -163,12 +161,14 @@ def schedule(I, system=False, user_chains=0, overwrite=False, composite=False):
         if overwrite and not torch.equal(init, st.states[-1]):
             return False, "user's initial chains do not hold the final chain state although overwrite=True"
     else:
-        if st.calls[0]["initial"] is not None or int(st.calls[0]["num_samples"]) != chains:
-            return False, "first draw: initial_state %r, num_samples %r" % (st.calls[0]["initial"], st.calls[0]["num_samples"])
+        if st.calls[0]["shape"] != (chains, st.n):
+            return False, "first draw starts %s chains, expected %d" % (st.calls[0]["shape"], chains)
     for i in range(1, len(st.calls)):
         c = st.calls[i]
         if c["initial"] is None or not c["overwrite"]:
             return False, "draw %d does not continue the previous chains in place" % i
+        if c["shape"] != st.calls[0]["shape"]:
+            return False, "draw %d runs %s chains, the first draw %s" % (i, c["shape"], st.calls[0]["shape"])
     for (ob, res) in ((o1, res1), (o2, res2)):
         if res is None:
             continue
